@@ -658,8 +658,49 @@ def first_index(cx, s, ch):
     return p
 
 
+FIRSTSUB = {}
+
+
+def first_sub(cx, s, text):
+    """Index of the first occurrence of the constant text (2..8 characters) in s, len(s) if absent."""
+    L = len(text)
+    fn = FIRSTSUB.setdefault(text, z3.Function("FIRST_SUB[" + text + "]", AII, I, I))
+    cache = cx.__dict__.setdefault("_firstsub", set())
+    key = (s.arr.get_id(), s.n.get_id(), text)
+    p = fn(s.arr, s.n)
+    if key not in cache:
+        cache.add(key)
+        t = z3.Int("t!fs")
+
+        def match(at):
+            return z3.And(*[s.arr[at + i] == ord(ch) for i, ch in enumerate(text)])
+        cx.axioms += [0 <= p, p <= s.n, z3.Implies(p < s.n, z3.And(p + L <= s.n, match(p))),
+                      z3.ForAll([t], z3.Implies(z3.And(0 <= t, t < p, t + L <= s.n), z3.Not(match(t))))]
+    return p
+
+
+def named_slice(cx, s, lo, hi):
+    """s[lo:hi] for 0 <= lo <= hi <= len(s) as a named array with its defining axiom (one per slice in use) instead of a
+    lambda term: keeps uninterpreted functions of strings applied to constants."""
+    cache = cx.__dict__.setdefault("_named_slices", {})
+    key = (s.arr.get_id(), lo.get_id())
+    if key not in cache:
+        arr = fresh("slice", AII)
+        k = z3.Int("k!ns")
+        cx.axioms.append(z3.ForAll([k], arr[k] == s.arr[k + lo], patterns=[arr[k]]))
+        cache[key] = arr
+    return StrV(cache[key], hi - lo)
+
+
 def _s_partition(ex, st, s, args, kwargs, node, spec):
     sep = args[0]
+    if isinstance(sep, PyConst) and isinstance(sep.v, str) and 2 <= len(sep.v) <= 8:
+        p = first_sub(ex.cx, s, sep.v)
+        found = p < s.n
+        L = len(sep.v)
+        cs = const_str(sep.v)
+        return TupV((named_slice(ex.cx, s, z3.IntVal(0), p), StrV(cs.arr, z3.If(found, L, 0)),
+                     named_slice(ex.cx, s, z3.If(found, p + L, s.n), s.n)))
     if not (isinstance(sep, PyConst) and isinstance(sep.v, str) and len(sep.v) == 1):
         raise Unsupported("str.partition with a non-constant or multi-character separator")
     p = first_index(ex.cx, s, ord(sep.v))
